@@ -253,3 +253,5 @@ func sortedKeys(m map[string]int) []string {
 	sort.Strings(ks)
 	return ks
 }
+
+func jsonUnmarshal(b []byte, v any) error { return json.Unmarshal(b, v) }
